@@ -12,6 +12,7 @@ Writes /verif/seeded/<ID>/{patch.diff, demo files, meta.json} when steps 1-2 hol
 import json, os, re, shutil, subprocess, sys, time
 
 VERIF = "/verif"
+DEST = None
 PKGDIR = {"nebula": ".", "cert": "cert", "handshake": "handshake", "header": "header", "iputil": "iputil", "firewall": "firewall",
           "overlay": "overlay", "batch": "overlay/batch", "tio": "overlay/tio", "virtio": "overlay/tio/virtio",
           "checksum": "overlay/checksum", "udp": "udp", "routing": "routing", "cpupick": "cpupick", "noiseutil": "noiseutil",
@@ -28,7 +29,7 @@ def main():
     a = sys.argv[1:]
     pid = a[0]
     src = "/var/tmp/seed/out/" + pid
-    also, tier, tags, race = [], "quick", "", False
+    also, tier, tags, race, name = [], "quick", "", False, None
     i = 1
     while i < len(a):
         if a[i] == "--src": src = a[i + 1]
@@ -36,10 +37,13 @@ def main():
         elif a[i] == "--tier": tier = a[i + 1]
         elif a[i] == "--tags": tags = a[i + 1]
         elif a[i] == "--race": race = a[i + 1] == "1"
+        elif a[i] == "--name": name = a[i + 1]
         i += 2
-    wt = "/var/tmp/seedeval-" + pid
+    global DEST
+    wt = "/var/tmp/seedeval-" + (name or pid)
     subprocess.run(["git", "-C", "/repo", "worktree", "remove", "--force", wt], stdout=subprocess.DEVNULL, stderr=subprocess.DEVNULL)
     subprocess.run(["git", "-C", "/repo", "worktree", "add", "--detach", wt], stdout=subprocess.DEVNULL, stderr=subprocess.DEVNULL, check=True)
+    DEST = name or pid
     meta = {"property": pid, "source": src, "ran": [], "when": time.strftime("%Y-%m-%d %H:%M:%S")}
     try:
         patch = os.path.join(src, "patch.diff")
@@ -117,7 +121,7 @@ def main():
 
 def finish(pid, src, meta, keep):
     if keep:
-        dst = os.path.join(VERIF, "seeded", pid)
+        dst = os.path.join(VERIF, "seeded", DEST)
         os.makedirs(dst, exist_ok=True)
         for f in os.listdir(src):
             if f == "patch.diff" or f.endswith("_test.go") or f == "notes.md" or f.endswith(".go"):
